@@ -57,6 +57,9 @@ ExtraW == << [f |-> "OP_ADD", kinds |-> <<"n", "n">>, args |-> <<Whole(1), Whole
              [f |-> "SUM", kinds |-> <<"v", "v">>, args |-> <<Whole(1), Whole(0)>>],
              [f |-> "MOD", kinds |-> <<"n", "n">>, args |-> <<Whole(0), Whole(1)>>],
              [f |-> "LEFT", kinds |-> <<"t", "n">>, args |-> <<Txt(<<97, 98>>), Whole(1)>>],
+             \* 0 at an OPTIONAL position whose default is not 0: a blank there is 0, not "argument omitted"
+             [f |-> "LEFT", kinds |-> <<"t", "n">>, args |-> <<Txt(<<97, 98>>), Whole(0)>>],
+             [f |-> "RIGHT", kinds |-> <<"t", "n">>, args |-> <<Txt(<<97, 98>>), Whole(0)>>],
              [f |-> "MID", kinds |-> <<"t", "n", "n">>, args |-> <<Txt(<<97, 98>>), Whole(1), Whole(0)>>],
              [f |-> "DATE", kinds |-> <<"n", "n", "n">>, args |-> <<Whole(2000), Whole(1), Whole(1)>>],
              [f |-> "PV", kinds |-> <<"n", "n", "n", "n", "n">>, args |-> <<Rat(1, 10), Whole(5), Whole(-100), Whole(0), Whole(1)>>],
